@@ -668,3 +668,77 @@ Lemma idle_observable_spec ls ps :
   ((forall p q, In p ps -> q < length ls -> nth q ls None = None -> nth q (plets p) 0 = 0) ->
    (forall p, In p ps -> length (plets p) = length ls) -> exists so, sub_observables ls ps = Ok so).
 Proof. split; [intros p q; apply subobs_refused|apply subobs_ok]. Qed.
+
+(* ================= the public sub-observables; totality ================= *)
+Section Problem3.
+  Variable basis_of : op -> option (nat * qlabel).
+  Variable relabel : qlabel -> nat.
+  Variable dx : circ -> circ.
+
+  (* the sub-observables returned by partition_problem ARE [sub_observables] of the labels in force *)
+  Theorem problem_subobs n ncl ncr c labels obs subs bases so :
+    partition_problem basis_of relabel dx n ncl ncr c labels obs = Ok (subs, bases, Some so) ->
+    exists ps, obs = Some ps /\ ps <> [] /\ length (labels_used n c labels) = n /\
+               (forall p, In p ps -> length (plets p) = n) /\
+               sub_observables (labels_used n c labels) ps = Ok so.
+  Proof.
+    intros H. destruct (partition_problem_ok _ _ _ _ _ _ _ _ _ _ _ _ H) as [_ [_ [SZ [qc [qm [EP [_ [_ EO]]]]]]]].
+    assert (Ln : length (labels_used n c labels) = n).
+    { unfold partition_circuit_qubits in EP.
+      destruct (Nat.eqb_spec (length (labels_used n c labels)) n); [assumption|discriminate]. }
+    destruct obs as [[|p ps]|]; try discriminate.
+    destruct EO as [so' [EO E]]. inversion E; subst so'.
+    exists (p :: ps). repeat split; auto; [discriminate|]. intros p0 Hp. now destruct (SZ _ eq_refl p0 Hp).
+  Qed.
+
+  Lemma pcq_step_refused ls i : pcq_step basis_of ls i = Refused -> uncuttable basis_of ls i.
+  Proof.
+    unfold pcq_step, uncuttable. destruct (is_barrier i) eqn:IB; [discriminate|].
+    destruct (Nat.leb_spec (length (iqs i)) 1) as [L1|L1]; simpl; [discriminate|].
+    destruct (Nat.eqb_spec (length (span_labels ls (iqs i))) 1) as [S1|S1]; [discriminate|].
+    destruct (Nat.ltb_spec 2 (length (iqs i))) as [L2|L2]; [intros _; repeat split; auto|].
+    unfold is_qpd2. destruct (iop i) eqn:EO; try discriminate;
+      (destruct (basis_of _) as [[bb ll]|] eqn:EB; [discriminate|]; intros _; repeat split; auto; right; split; auto;
+       now rewrite <- EO).
+  Qed.
+
+  Lemma pcq_loop_total ls : forall c, (forall i, In i c -> ~ uncuttable basis_of ls i) ->
+    exists qc, pcq_loop basis_of ls c = Ok qc.
+  Proof.
+    induction c as [|i r IH]; intros H; simpl; [eauto|].
+    destruct (pcq_step basis_of ls i) as [i'| |] eqn:ES.
+    - destruct IH as [qc E]; [intros x Hx; apply H; now right|]. rewrite E. simpl. eauto.
+    - exfalso. apply (H i (or_introl eq_refl)). now apply pcq_step_refused.
+    - exfalso. exact (pcq_step_not_crashed basis_of ls i ES).
+  Qed.
+
+  (* totality of partition_problem, PARTIAL: the request passes the four validations, no gate is uncuttable, the
+     observables are the identity on the None-labelled qubits; what is assumed rather than derived from the input
+     is that the cut circuit (after decompose) has a valid labelling with every instruction on at least one qubit and
+     without clbits — i.e. the missing part is  "every instruction of c acts on non-None-labelled qubits, at least one,
+     pre-placed placeholders on exactly two  ==>  valid_labelling ls (dx (numbered cut circuit))". *)
+  Theorem problem_total_partial n c labels obs :
+    labels_ok n labels -> obs_sizes_ok n obs -> obs_phases_ok obs ->
+    let ls := labels_used n c labels in
+    length ls = n ->
+    (forall i, In i c -> ~ uncuttable basis_of ls i) ->
+    (forall qc, pcq_loop basis_of ls c = Ok qc ->
+       let cut := dx (fst (number_qpd relabel qc 0)) in
+       no_empty_instr cut /\ valid_labelling ls cut /\ clbits_ok [] cut) ->
+    (forall ps p q, obs = Some ps -> In p ps -> q < n -> nth q ls None = None -> nth q (plets p) 0 = 0) ->
+    exists r, partition_problem basis_of relabel dx n 0 0 c labels obs = Ok r.
+  Proof.
+    intros LO SO PO ls Ln NU CUT ID. unfold partition_problem. rewrite (labels_ok_pass n labels LO).
+    destruct (obs_pass n obs SO PO) as [-> ->]. simpl. fold (labels_used n c labels). fold ls.
+    unfold partition_circuit_qubits. rewrite Ln, Nat.eqb_refl. simpl.
+    destruct (pcq_loop_total ls c NU) as [qc EP]. rewrite EP.
+    destruct (number_qpd relabel qc 0) as [qc' bs] eqn:EN.
+    destruct (CUT qc EP) as [NE [V CL]]. rewrite EN in *. simpl in *.
+    destruct (separate_total n [] (dx qc') ls NE Ln V CL) as [subs ES]. rewrite ES.
+    destruct obs as [[|p ps]|]; eauto.
+    destruct (subobs_ok ls (p :: ps)) as [so Eso].
+    - intros p0 q Hp Hq Eq. apply (ID (p :: ps) p0 q eq_refl Hp); [lia|exact Eq].
+    - intros p0 Hp. rewrite Ln. exact (SO p0 Hp).
+    - rewrite Eso. eauto.
+  Qed.
+End Problem3.
